@@ -74,6 +74,17 @@ def main():
                            env=dict(os.environ, VERIF_REPO=wt), cwd=VERIF, timeout=wall * 4 + 600)
                     lines = c.stdout.splitlines()
                     viol = [i for i, ln in enumerate(lines) if ln.startswith('VIOLATION')]
+                    if viol:
+                        # keep the first minimised replay file next to the seeded change
+                        rp = lines[viol[0]].split('replay=')[-1].strip()
+                        try:
+                            with open(rp) as f:
+                                data = f.read()
+                            if len(data) < 400000:
+                                with open(os.path.join(d, 'replay-%s.json' % prop), 'w') as f:
+                                    f.write(data)
+                        except OSError:
+                            pass
                     res['checks'][prop] = {
                         'exit': c.returncode,
                         'violation_lines': len(viol),
